@@ -64,7 +64,21 @@ def check_property(pid, tier="quick", only=None, jobs=None, verbose=False, overr
     undecided, crashed, vacuous = [], [], []
     for r in results:
         if r["status"] == "unsupported":
-            undecided.append("%s: unsupported: %s" % (r["unit"], r["message"]))
+            # the unit's current source is outside the modelled subset: nothing is decided deductively.  The replay
+            # harness of the property (real code only) may still find a real failing input for this unit
+            rep = None
+            if hasattr(mod, "replay"):
+                try:
+                    rep = mod.replay({"unit": r["unit"], "name": r["unit"] + "/unit-not-verifiable", "inputs": {}})
+                except Exception as e:
+                    rep = {"reproduced": False, "detail": "replay harness error: %r" % e}
+            if rep and rep.get("reproduced"):
+                obligations.append({"name": r["unit"] + "/unit-not-verifiable", "unit": r["unit"], "kind": "replay",
+                                    "status": "refuted", "backend": "replay(real code)", "time": 0.0, "replayed": rep,
+                                    "info": {"detail": "unit outside the modelled subset (%s); the replay harness found a "
+                                                       "real failing input" % r["message"]}})
+            else:
+                undecided.append("%s: unsupported: %s" % (r["unit"], r["message"]))
         elif r["status"] == "crash":
             crashed.append("%s: %s" % (r["unit"], r["message"]))
         exits = [v for n, v in r["covers"] if n == "normal-exit-reachable"]
